@@ -270,15 +270,25 @@ def canon_out(o):
 # ------------------------------------------------------------------------------------------------
 # converter construction
 
+def _kw(spec, **documented_defaults):
+    """keyword arguments of a constructor; with spec['defaults'] the ones equal to the documented default are
+    left out, so that the defaults of the code are exercised too"""
+    out = {}
+    for k, (v, dv) in documented_defaults.items():
+        if not (spec.get('defaults') and v == dv):
+            out[k] = v
+    return out
+
+
 def build_scorer(s):
     from votelib.component import rankscore as rs
     n = s['s']
     if n == 'Borda':
-        return rs.Borda(base=s['base'])
+        return rs.Borda(**_kw(s, base=(s['base'], 1)))
     if n == 'Dowdall':
         return rs.Dowdall()
     if n == 'Geometric':
-        return rs.Geometric(base=s['base'])
+        return rs.Geometric(**_kw(s, base=(s['base'], 2)))
     if n == 'ModifiedBorda':
         return rs.ModifiedBorda()
     if n == 'FixedTop':
@@ -304,7 +314,7 @@ def build_conv(spec, ctx):
     import votelib.candidate as vcand
     c = spec['c']
     if c == 'ApprovalToSimpleVotes':
-        return vc.ApprovalToSimpleVotes(split=spec['split'])
+        return vc.ApprovalToSimpleVotes(**_kw(spec, split=(spec['split'], False)))
     if c == 'RankedToFirstPreference':
         return vc.RankedToFirstPreference()
     if c == 'RankedToFirstNPreferences':
@@ -314,12 +324,13 @@ def build_conv(spec, ctx):
     if c == 'RankedToApprovalVotes':
         return vc.RankedToApprovalVotes()
     if c == 'RankedToPositionalVotes':
-        return vc.RankedToPositionalVotes(build_scorer(spec['scorer']))
+        sc = dict(spec['scorer'], defaults=spec.get('defaults'))
+        return vc.RankedToPositionalVotes(build_scorer(sc))
     if c == 'RankedToCondorcetVotes':
-        return vc.RankedToCondorcetVotes(unranked_at_bottom=spec['unranked_at_bottom'])
+        return vc.RankedToCondorcetVotes(**_kw(spec, unranked_at_bottom=(spec['unranked_at_bottom'], True)))
     if c == 'ScoreToRankedVotes':
         uv = spec.get('unscored_value')
-        return vc.ScoreToRankedVotes(unscored_value=None if uv is None else py_num(uv))
+        return vc.ScoreToRankedVotes(**_kw(spec, unscored_value=(None if uv is None else py_num(uv), None)))
     if c == 'ScoreToApprovalVotesThreshold':
         return vc.ScoreToApprovalVotesThreshold(py_num(spec['threshold']))
     if c == 'InvertedSimpleVotes':
@@ -327,20 +338,28 @@ def build_conv(spec, ctx):
     if c == 'InvertedApprovalVotes':
         return vc.InvertedApprovalVotes()
     if c in ('IndividualToPartyVotes', 'GroupVotesByParty'):
-        mapper = vcand.IndividualToPartyMapper(affiliation=spec.get('affiliation', 'candidacy_for'),
-                                               independents=spec['independents'])
-        return getattr(vc, c)(mapper)
+        kw = _kw(spec, affiliation=(spec.get('affiliation', 'candidacy_for'), 'candidacy_for'),
+                 independents=(spec['independents'], 'aggregate'))
+        if not kw and spec.get('defaults'):
+            return getattr(vc, c)()                       # DEFAULT_MAPPER
+        return getattr(vc, c)(vcand.IndividualToPartyMapper(**kw))
     if c == 'VoteTotals':
         return vc.VoteTotals()
     if c == 'ConstituencyTotals':
         return vc.ConstituencyTotals()
     if c == 'SubsettedVotes':
-        sub = {'simple': vv.SimpleSubsetter, 'approval': vv.ApprovalSubsetter, 'ranked': vv.RankedSubsetter,
-               'score': vv.ScoreSubsetter}[spec['subsetter']]()
-        return _WithSubset(vc.SubsettedVotes(sub, depth=spec['depth']), [ctx.cand(i) for i in spec['subset']])
+        if spec.get('defaults') and spec['subsetter'] == 'simple' and spec['depth'] == 0:
+            inner = vc.SubsettedVotes()                   # DEFAULT_SUBSETTER, depth 0
+        else:
+            sub = {'simple': vv.SimpleSubsetter, 'approval': vv.ApprovalSubsetter, 'ranked': vv.RankedSubsetter,
+                   'score': vv.ScoreSubsetter}[spec['subsetter']]()
+            inner = vc.SubsettedVotes(sub, **_kw(spec, depth=(spec['depth'], 0)))
+        return _WithSubset(inner, [ctx.cand(i) for i in spec['subset']])
     if c == 'RoundedVotes':
         import decimal
-        return vc.RoundedVotes(spec['decimals'], getattr(decimal, spec.get('round_method', 'ROUND_HALF_UP')))
+        if 'round_method' not in spec:
+            return vc.RoundedVotes(spec['decimals'])        # the default method (documented: ROUND_HALF_UP)
+        return vc.RoundedVotes(spec['decimals'], getattr(decimal, spec['round_method']))
     if c == 'Chain':
         return vc.Chain([build_conv(s, ctx) for s in spec['cs']])
     raise ValueError(c)
@@ -1114,6 +1133,13 @@ def rnd_scorer(rng, name=None):
 
 
 def rnd_spec(rng, name, m):
+    sp, kind = _rnd_spec(rng, name, m)
+    if rng.random() < 0.5:
+        sp['defaults'] = True
+    return sp, kind
+
+
+def _rnd_spec(rng, name, m):
     if name == 'ApprovalToSimpleVotes':
         return {'c': name, 'split': rng.random() < 0.5}, 'approval'
     if name == 'RankedToFirstNPreferences':
@@ -1146,8 +1172,10 @@ def rnd_spec(rng, name, m):
         return {'c': name, 'subsetter': k, 'subset': sub, 'depth': 0}, {'simple': 'simple', 'approval': 'approval',
                                                                          'ranked': 'ranked', 'score': 'score'}[k]
     if name == 'RoundedVotes':
-        return {'c': name, 'decimals': rng.choice([0, 1, 1, 2, 3]),
-                'round_method': rng.choice(ROUND_METHODS + ['ROUND_HALF_UP'] * 4)}, rng.choice(['simple', 'simple', 'approval', 'ranked'])
+        sp = {'c': name, 'decimals': rng.choice([0, 1, 1, 2, 3])}
+        if rng.random() < 0.5:
+            sp['round_method'] = rng.choice(ROUND_METHODS)
+        return sp, rng.choice(['simple', 'simple', 'approval', 'ranked'])
     raise ValueError(name)
 
 
